@@ -150,6 +150,7 @@ fn main() {
     let mut nsolves = 0usize;
     let mut nevents = 0usize;
     let mut ninit = 0usize;
+    let mut nsteps = 0usize;
     for p in newton_probs.iter() {
         let settings = DefaultSettings { verbose: false, ..DefaultSettings::default() };
         let built = guarded(|| DefaultSolver::new(&p.P, &p.q, &p.A, &p.b, &p.cones, settings));
@@ -186,6 +187,54 @@ fn main() {
                     format!("(c_init 10 {} {} {} {} {} {} {} {} {} {})", cn(n), cn(m), trips(&d.P), trips(&d.A), cdylist(&d.q), cdylist(&d.b), cdylist(&h),
                             cdylist(x), cdylist(s), cdylist(z)),
                     &["C06"]);
+            }
+        }
+        // one predictor-corrector iteration (Newton/Step.v): residuals, right-hand sides, mu, update
+        {
+            let deg = clarabel::verif_hooks::skel::cone_degree(&solver);
+            #[derive(Default, Clone)]
+            struct It { vars: Option<(Vec<f64>, Vec<f64>, Vec<f64>, f64, f64)>, mu: f64, iterc: u32,
+                        aff: Option<(Vec<f64>, Vec<f64>, f64, f64, f64, f64)>, aa: Option<(f64, f64)>,
+                        comb: Option<(Vec<f64>, Vec<f64>, f64, f64, Vec<f64>, Vec<f64>, Vec<f64>, f64, f64)>, alpha: Option<f64> }
+            let mut cur = It::default();
+            let mut done: Option<It> = None;
+            let mut emitted = 0;
+            for e in events.iter() {
+                match e {
+                    Event::Head { mu, .. } => { if cur.alpha.is_some() { done = Some(cur.clone()); } else { done = None; } cur = It::default(); cur.mu = *mu; }
+                    Event::Vars { x, s, z, tau, kappa } => {
+                        if let Some(d0) = done.take() {
+                            if let (Some(v), Some(a), Some(aa), Some(c), Some(al)) = (d0.vars, d0.aff, d0.aa, d0.comb, d0.alpha) {
+                                let allfin = finite(&v.0) && finite(&v.1) && finite(&v.2) && finite(&a.0) && finite(&a.1) && finite(&c.0) && finite(&c.1) && finite(&c.4) && finite(&c.5) && finite(&c.6)
+                                    && finite(x) && finite(s) && finite(z) && [v.3, v.4, a.2, a.3, a.4, a.5, aa.0, aa.1, c.2, c.3, c.7, c.8, al, d0.mu, *tau, *kappa].iter().all(|t| t.is_finite());
+                                if allfin && emitted < 6 && v.1.len() == m && v.0.len() == n {
+                                    emitted += 1; nsteps += 1;
+                                    let mfac = if d0.iterc > 1 { 1.0 } else { aa.0 };
+                                    sink.case("step", json!({"label": p.label, "problem": p.to_json(), "iteration": d0.iterc, "n": n, "m": m}),
+                                        format!("(c_step {} {} {} {} {} {} {} {} {} {} {} {} {} {} {} {} {} {} {} {} {} {} {} {} {} {} {} {} {} {} {} {} {} {} {} {})",
+                                            cn(n), cn(m), cn(deg), trips(&d.P), trips(&d.A), cdylist(&d.q), cdylist(&d.b),
+                                            cdylist(&v.0), cdylist(&v.1), cdylist(&v.2), cdy(v.3), cdy(v.4),
+                                            cdylist(&a.0), cdylist(&a.1), cdy(a.2), cdy(a.3),
+                                            cdy(aa.1), cdy(d0.mu), cdy(mfac), cdy(a.4), cdy(a.5),
+                                            cdylist(&c.0), cdylist(&c.1), cdy(c.2), cdy(c.3),
+                                            cdylist(&c.4), cdylist(&c.5), cdylist(&c.6), cdy(c.7), cdy(c.8), cdy(al),
+                                            cdylist(x), cdylist(s), cdylist(z), cdy(*tau), cdy(*kappa)),
+                                        &["C06"]);
+                                }
+                            }
+                        }
+                        cur.vars = Some((x.clone(), s.clone(), z.clone(), *tau, *kappa));
+                    }
+                    Event::IterInc { iter } => cur.iterc = *iter,
+                    Event::KktSolve { dir, lhs_x, lhs_z, lhs_s, lhs_tau, lhs_kappa, rhs_x, rhs_z, rhs_tau, rhs_kappa, .. } => {
+                        if *dir == 0 { cur.aff = Some((rhs_x.clone(), rhs_z.clone(), *rhs_tau, *rhs_kappa, *lhs_tau, *lhs_kappa)); }
+                        else { cur.comb = Some((rhs_x.clone(), rhs_z.clone(), *rhs_tau, *rhs_kappa, lhs_x.clone(), lhs_z.clone(), lhs_s.clone(), *lhs_tau, *lhs_kappa)); }
+                    }
+                    Event::AlphaAff { alpha, sigma } => cur.aa = Some((*alpha, *sigma)),
+                    Event::AddStep { alpha } => cur.alpha = Some(*alpha),
+                    Event::Rollback => { cur = It::default(); done = None; }
+                    _ => {}
+                }
             }
         }
         let ks: Vec<&Event> = events.iter().filter(|e| matches!(e, Event::KktSolve { .. })).collect();
@@ -262,7 +311,7 @@ fn main() {
                                   "problem": if status != 1 { p.to_json() } else { Value::Null }}}));
     }
 
-    sink.record(json!({"stats": {"newton_solves": nsolves, "newton_directions": nevents, "init_points": ninit, "family_G_instances": g_probs.len()}}));
+    sink.record(json!({"stats": {"newton_solves": nsolves, "newton_directions": nevents, "init_points": ninit, "step_cases": nsteps, "family_G_instances": g_probs.len()}}));
     sink.record(json!({"meta": {"prop": "c06", "seed": seed, "tier": tier, "blas": blas_shim::AVAILABLE}}));
     sink.flush();
 }
